@@ -1833,7 +1833,7 @@ func (x *fnTr) copyStmt(call *ast.CallExpr, pre *[]string) {
 func (x *fnTr) userCall(call *ast.CallExpr, g *ctFn, pre *[]string, used bool) []string {
 	info := x.p.info
 	args := x.t.alignArgs(g, info, call)
-	if x.t.usesReader(g) {
+	if x.t.readerFn(g, map[*ctFn]bool{}) && !x.forwardsReader(call, g) {
 		x.fail(call.Pos(), "%s reads from an io.Reader: the reader position is modelled per entry function, such a function cannot be a callee", g.key)
 	}
 	if len(args) != len(g.params) {
